@@ -10,7 +10,9 @@ fn main() {
     check.extra("all_byte_offsets_up_to", json!(all_limit));
     // data part
     let objs = data::objects(&check);
-    let jobs = data::jobs(&check, &objs);
+    let mut jobs = data::jobs(&check, &objs);
+    // heavy jobs (deflated syntax, large objects) first: shorter tail on 16 cores
+    jobs.sort_by_key(|j| std::cmp::Reverse(data::job_weight(&objs, j)));
     check.extra("data_objects", json!(objs.len()));
     check.extra("data_jobs", json!(jobs.len()));
     check.par_range(jobs.len() as u64, |l, i| {
@@ -21,6 +23,11 @@ fn main() {
         }
     });
     // upper-layer part
-    ul::run(&check);
+    ul::run(&check, all_limit);
+    let f: Vec<u64> = vx_fault::FIRED.iter().map(|a| a.load(std::sync::atomic::Ordering::Relaxed)).collect();
+    check.extra("faults_fired", json!({"data_write": f[0], "data_read": f[1], "ul_write": f[2], "ul_read": f[3]}));
+    if !check.replaying() && f.iter().any(|n| *n == 0) {
+        check.machinery_error(&format!("vacuous: no fault fired in one of data-write/data-read/ul-write/ul-read: {f:?}"));
+    }
     check.finish();
 }
